@@ -45,6 +45,10 @@ DESIGNED = [
      "variant": {"carrier": "by-order", "designation": "none", "container": "dict", "int_h0": False, "scale_exp": 0}},
     {"hermitian": True, "sizes": [4], "E": [2, 2, 5, 5],                                              # the same for a single block (fully diagonalised by default)
      "variant": {"carrier": "dense", "designation": "rotated", "container": "dict", "int_h0": False, "level_rotation": True, "np_seed": 54321, "scale_exp": 0}},
+    {"hermitian": True, "sizes": [3, 2], "E": [1, 1, 4, 8, 11], "fd_tuple": [0],                     # levels equal only within the tolerance (a fraction of atol apart), in a fully diagonalised block
+     "variant": {"carrier": "dense", "designation": "indices", "container": "dict", "int_h0": False, "level_jitter": True, "scale_exp": 0}},
+    {"hermitian": True, "sizes": [4], "E": [3, 3, 6, 6],                                              # the same for a single block, sparse
+     "variant": {"carrier": "sparse", "designation": "none", "container": "dict", "int_h0": False, "level_jitter": True, "scale_exp": 0}},
 ]
 
 def gen_problem(rnd, hermitian=True, force=None):
@@ -241,6 +245,9 @@ def choose_variant(P, rnd):
     # H_0 as it comes out of a numerical change of basis: zero off the diagonal only up to rounding (far below atol), in whatever carrier
     if not v["int_h0"] and v["designation"] not in ("rotated", "biorthogonal") and rnd.random() < 0.3:
         v["h0_noise"] = rnd.randrange(2**31)
+    # degenerate levels as a numerical diagonalisation leaves them: equal only within the tolerance (offsets of a fraction of atol = 1e-12 units)
+    if not v["int_h0"] and v["designation"] not in ("rotated", "biorthogonal") and max(abs(e[0]) for e in E) <= 100 and any(len(g) >= 2 for g in level_groups(P)) and rnd.random() < 0.4:
+        v["level_jitter"] = True
     return v
 
 def snap(x):
@@ -268,6 +275,11 @@ def run_impl_numeric(P, requests, v, rnd):
     if v.get("int_all"): mats = {n: np.rint(m.real).astype(int) for n, m in mats.items()}
     unit = 2.0 ** v.get("scale_exp", 0)
     if unit != 1.0: mats = {n: m * unit for n, m in mats.items()}
+    if v.get("level_jitter"):
+        mats[zero_n] = mats[zero_n].astype(complex if cplx else float)
+        for g in level_groups(P):
+            if len(g) >= 2:
+                for t, a in enumerate(g): mats[zero_n][a, a] += (0.3e-12 if t % 2 == 0 else 0.8e-12) * unit
     if v.get("h0_noise") is not None:
         nrng = np.random.default_rng(v["h0_noise"]); scale = 3e-15 * unit
         noise = nrng.uniform(-1, 1, size=(d, d)) * scale; noise = (noise + noise.T) / 2; np.fill_diagonal(noise, 0)
@@ -538,7 +550,7 @@ def main(seed, ncases, driver, out, mode="all"):
             if c % 8 == 2 and not (force and force.get("variant")):      # pre-separated CSR blocks that store explicit zeros: the caller's buffers are compared afterwards
                 variant.update(designation="blocked", carrier="sparse", container="dict", int_h0=False, scale_exp=0, explicit_zeros=True); variant.pop("interleave", None); variant.pop("sparse_vectors", None)
             if force and force.get("variant"):
-                for kk in ("interleave", "sparse_vectors", "level_rotation", "np_seed", "int_all"): variant.pop(kk, None)
+                for kk in ("interleave", "sparse_vectors", "level_rotation", "np_seed", "int_all", "h0_noise", "level_jitter", "explicit_zeros"): variant.pop(kk, None)
                 variant.update(force["variant"])
             if not hermitian and c % 8 in (0, 1):      # pre-separated sparse blocks in the non-Hermitian algorithm: the values reach the solver as the caller's own objects
                 variant.update(designation="blocked", carrier="sparse", container="dict", int_h0=False, scale_exp=0); variant.pop("interleave", None); variant.pop("sparse_vectors", None)
@@ -547,6 +559,7 @@ def main(seed, ncases, driver, out, mode="all"):
             if variant.get("level_rotation"): num_stats["level_rotation"] = num_stats.get("level_rotation", 0) + 1
             if variant.get("explicit_zeros"): num_stats["explicit_zeros"] = num_stats.get("explicit_zeros", 0) + 1
             if variant.get("h0_noise") is not None: num_stats["h0_noise"] = num_stats.get("h0_noise", 0) + 1
+            if variant.get("level_jitter"): num_stats["level_jitter"] = num_stats.get("level_jitter", 0) + 1
             if variant.get("sparse_vectors"): num_stats["sparse_vectors"] = num_stats.get("sparse_vectors", 0) + 1
             if variant.get("scale_exp"): num_stats["units=2^%d" % variant["scale_exp"]] = num_stats.get("units=2^%d" % variant["scale_exp"], 0) + 1
             try:
